@@ -159,47 +159,60 @@ macro_rules! c06_pair {
     };
 }
 
-/// @harness id=c06_f_then_g props=C06,C04,C12 tier=quick unwind=40 mem=10 cap=1500 gates=seed unwindset=find_inner:3;memchr_seq:400;rec~ParseErrorType:3;rec~LexicalErrorType:3;rec~FStringErrorType:3;rec~drop_glue::<std::io::Error:3
+/// @harness id=c06_f_then_g props=ATTEMPT tier=thorough unwind=18 mem=10 cap=1500 gates=seed unwindset=find_inner:3;memchr_seq:400;rec~ParseErrorType:3;rec~LexicalErrorType:3;rec~FStringErrorType:3;rec~drop_glue::<std::io::Error:3;memchr_bytewise:64;sip:48;next_match:40
 /// conftest C_F (defines f) then C_G (f renamed to g): nothing of f survives.
 c06_pair!(c06_f_then_g, PC, T_C_F, fresh_c_f, T_C_G, fresh_c_g);
-/// @harness id=c06_f_then_empty props=C06 tier=quick unwind=40 mem=10 cap=1500 gates=seed unwindset=find_inner:3;memchr_seq:400;rec~ParseErrorType:3;rec~LexicalErrorType:3;rec~FStringErrorType:3;rec~drop_glue::<std::io::Error:3
+/// @harness id=c06_f_then_empty props=C06 tier=quick unwind=18 mem=10 cap=1500 gates=seed unwindset=find_inner:3;memchr_seq:400;rec~ParseErrorType:3;rec~LexicalErrorType:3;rec~FStringErrorType:3;rec~drop_glue::<std::io::Error:3;memchr_bytewise:64;sip:48;next_match:40
 /// conftest C_F then the empty text: all records gone.
 c06_pair!(c06_f_then_empty, PC, T_C_F, fresh_c_f, T_C_EMPTY, fresh_c_empty);
-/// @harness id=c06_f_then_bad props=C06 tier=quick unwind=40 mem=10 cap=1500 gates=seed unwindset=find_inner:3;memchr_seq:400;rec~ParseErrorType:3;rec~LexicalErrorType:3;rec~FStringErrorType:3;rec~drop_glue::<std::io::Error:3
+/// @harness id=c06_f_then_bad props=ATTEMPT tier=thorough unwind=18 mem=10 cap=1500 gates=seed unwindset=find_inner:3;memchr_seq:400;rec~ParseErrorType:3;rec~LexicalErrorType:3;rec~FStringErrorType:3;rec~drop_glue::<std::io::Error:3;memchr_bytewise:64;sip:48;next_match:40
 /// conftest C_F then an unparsable text: the last valid version stays in effect.
 c06_pair!(c06_f_then_bad, PC, T_C_F, fresh_c_f, T_C_BAD, fresh_c_f);
-/// @harness id=c06_f_then_comment props=C06 tier=quick unwind=40 mem=10 cap=1500 gates=seed unwindset=find_inner:3;memchr_seq:400;rec~ParseErrorType:3;rec~LexicalErrorType:3;rec~FStringErrorType:3;rec~drop_glue::<std::io::Error:3
+/// @harness id=c06_f_then_comment props=C06 tier=quick unwind=18 mem=10 cap=1500 gates=seed unwindset=find_inner:3;memchr_seq:400;rec~ParseErrorType:3;rec~LexicalErrorType:3;rec~FStringErrorType:3;rec~drop_glue::<std::io::Error:3;memchr_bytewise:64;sip:48;next_match:40
 /// conftest C_F then a comment-only text (parses, zero statements): all records gone.
 c06_pair!(c06_f_then_comment, PC, T_C_F, fresh_c_f, T_C_COMMENT, fresh_c_comment);
-/// @harness id=c06_ff_then_f props=C06 tier=quick unwind=40 mem=10 cap=1500 gates=seed unwindset=find_inner:3;memchr_seq:400;rec~ParseErrorType:3;rec~LexicalErrorType:3;rec~FStringErrorType:3;rec~drop_glue::<std::io::Error:3
+/// @harness id=c06_ff_then_f props=ATTEMPT tier=thorough unwind=18 mem=10 cap=1500 gates=seed unwindset=find_inner:3;memchr_seq:400;rec~ParseErrorType:3;rec~LexicalErrorType:3;rec~FStringErrorType:3;rec~drop_glue::<std::io::Error:3;memchr_bytewise:64;sip:48;next_match:40
 /// conftest C_FF (the same name defined twice in one file) then C_F: exactly one definition remains.
 c06_pair!(c06_ff_then_f, PC, T_C_FF, fresh_c_ff, T_C_F, fresh_c_f);
-/// @harness id=c06_moved_then_f props=C06,C04 tier=quick unwind=40 mem=10 cap=1500 gates=seed unwindset=find_inner:3;memchr_seq:400;rec~ParseErrorType:3;rec~LexicalErrorType:3;rec~FStringErrorType:3;rec~drop_glue::<std::io::Error:3
+/// @harness id=c06_moved_then_f props=ATTEMPT tier=thorough unwind=18 mem=10 cap=1500 gates=seed unwindset=find_inner:3;memchr_seq:400;rec~ParseErrorType:3;rec~LexicalErrorType:3;rec~FStringErrorType:3;rec~drop_glue::<std::io::Error:3;memchr_bytewise:64;sip:48;next_match:40
 /// conftest C_F_MOVED (f(g), g) then C_F: the usage of g and the definition g are gone, f is at its new line.
 c06_pair!(c06_moved_then_f, PC, T_C_F_MOVED, fresh_c_f_moved, T_C_F, fresh_c_f);
-/// @harness id=c06_f_then_moved props=C06,C04 tier=thorough unwind=40 mem=10 cap=1500 gates=seed unwindset=find_inner:3;memchr_seq:400;rec~ParseErrorType:3;rec~LexicalErrorType:3;rec~FStringErrorType:3;rec~drop_glue::<std::io::Error:3
+/// @harness id=c06_f_then_moved props=ATTEMPT tier=thorough unwind=18 mem=10 cap=1500 gates=seed unwindset=find_inner:3;memchr_seq:400;rec~ParseErrorType:3;rec~LexicalErrorType:3;rec~FStringErrorType:3;rec~drop_glue::<std::io::Error:3;memchr_bytewise:64;sip:48;next_match:40
 /// conftest C_F then C_F_MOVED.
 c06_pair!(c06_f_then_moved, PC, T_C_F, fresh_c_f, T_C_F_MOVED, fresh_c_f_moved);
-/// @harness id=c06_f_then_same props=C06 tier=thorough unwind=40 mem=10 cap=1500 gates=seed unwindset=find_inner:3;memchr_seq:400;rec~ParseErrorType:3;rec~LexicalErrorType:3;rec~FStringErrorType:3;rec~drop_glue::<std::io::Error:3
+/// @harness id=c06_f_then_same props=ATTEMPT tier=thorough unwind=18 mem=10 cap=1500 gates=seed unwindset=find_inner:3;memchr_seq:400;rec~ParseErrorType:3;rec~LexicalErrorType:3;rec~FStringErrorType:3;rec~drop_glue::<std::io::Error:3;memchr_bytewise:64;sip:48;next_match:40
 /// conftest C_F re-sent unchanged: nothing duplicated.
 c06_pair!(c06_f_then_same, PC, T_C_F, fresh_c_f, T_C_F, fresh_c_f);
-/// @harness id=c06_ff_then_empty props=C06 tier=thorough unwind=40 mem=10 cap=1500 gates=seed unwindset=find_inner:3;memchr_seq:400;rec~ParseErrorType:3;rec~LexicalErrorType:3;rec~FStringErrorType:3;rec~drop_glue::<std::io::Error:3
+/// @harness id=c06_ff_then_empty props=C06,C04 tier=quick unwind=18 mem=10 cap=1500 gates=seed unwindset=find_inner:3;memchr_seq:400;rec~ParseErrorType:3;rec~LexicalErrorType:3;rec~FStringErrorType:3;rec~drop_glue::<std::io::Error:3;memchr_bytewise:64;sip:48;next_match:40
 /// conftest C_FF then empty.
 c06_pair!(c06_ff_then_empty, PC, T_C_FF, fresh_c_ff, T_C_EMPTY, fresh_c_empty);
-/// @harness id=c06_moved_then_bad props=C06 tier=thorough unwind=40 mem=10 cap=1500 gates=seed unwindset=find_inner:3;memchr_seq:400;rec~ParseErrorType:3;rec~LexicalErrorType:3;rec~FStringErrorType:3;rec~drop_glue::<std::io::Error:3
+/// @harness id=c06_moved_then_bad props=ATTEMPT tier=thorough unwind=18 mem=10 cap=1500 gates=seed unwindset=find_inner:3;memchr_seq:400;rec~ParseErrorType:3;rec~LexicalErrorType:3;rec~FStringErrorType:3;rec~drop_glue::<std::io::Error:3;memchr_bytewise:64;sip:48;next_match:40
 /// conftest C_F_MOVED then unparsable.
 c06_pair!(c06_moved_then_bad, PC, T_C_F_MOVED, fresh_c_f_moved, T_C_BAD, fresh_c_f_moved);
-/// @harness id=c06_moved_then_ff props=C06 tier=thorough unwind=40 mem=10 cap=1500 gates=seed unwindset=find_inner:3;memchr_seq:400;rec~ParseErrorType:3;rec~LexicalErrorType:3;rec~FStringErrorType:3;rec~drop_glue::<std::io::Error:3
+/// @harness id=c06_moved_then_ff props=ATTEMPT tier=thorough unwind=18 mem=10 cap=1500 gates=seed unwindset=find_inner:3;memchr_seq:400;rec~ParseErrorType:3;rec~LexicalErrorType:3;rec~FStringErrorType:3;rec~drop_glue::<std::io::Error:3;memchr_bytewise:64;sip:48;next_match:40
 /// conftest C_F_MOVED then C_FF.
 c06_pair!(c06_moved_then_ff, PC, T_C_F_MOVED, fresh_c_f_moved, T_C_FF, fresh_c_ff);
-/// @harness id=c06_test_then_two_params props=C06,C04 tier=quick unwind=40 mem=10 cap=1500 gates=seed unwindset=find_inner:3;memchr_seq:400;rec~ParseErrorType:3;rec~LexicalErrorType:3;rec~FStringErrorType:3;rec~drop_glue::<std::io::Error:3
+/// @harness id=c06_test_then_two_params props=ATTEMPT tier=thorough unwind=18 mem=10 cap=1500 gates=seed unwindset=find_inner:3;memchr_seq:400;rec~ParseErrorType:3;rec~LexicalErrorType:3;rec~FStringErrorType:3;rec~drop_glue::<std::io::Error:3;memchr_bytewise:64;sip:48;next_match:40
 /// test module U_T then U_TG (moved one line down, second parameter): usages and reverse index follow.
 c06_pair!(c06_test_then_two_params, PU, T_U_T, fresh_u_t, T_U_TG, fresh_u_tg);
-/// @harness id=c06_test_then_bad props=C06 tier=thorough unwind=40 mem=10 cap=1500 gates=seed unwindset=find_inner:3;memchr_seq:400;rec~ParseErrorType:3;rec~LexicalErrorType:3;rec~FStringErrorType:3;rec~drop_glue::<std::io::Error:3
+/// @harness id=c06_test_then_bad props=ATTEMPT tier=thorough unwind=18 mem=10 cap=1500 gates=seed unwindset=find_inner:3;memchr_seq:400;rec~ParseErrorType:3;rec~LexicalErrorType:3;rec~FStringErrorType:3;rec~drop_glue::<std::io::Error:3;memchr_bytewise:64;sip:48;next_match:40
 /// test module U_T then unparsable.
 c06_pair!(c06_test_then_bad, PU, T_U_T, fresh_u_t, T_U_BAD, fresh_u_t);
 
-/// @harness id=c06_same_length_edit props=C06,C15 unwind=48 mem=12 cap=1800 gates=seed unwindset=find_inner:3;memchr_seq:400;memchr_bytewise:140;rec~ParseErrorType:3;rec~LexicalErrorType:3;rec~FStringErrorType:3;rec~drop_glue::<std::io::Error:3
+/// @harness id=c06_moved_then_empty props=C06,C04,C12 tier=quick unwind=18 mem=10 cap=1500 gates=seed unwindset=find_inner:3;memchr_seq:400;rec~ParseErrorType:3;rec~LexicalErrorType:3;rec~FStringErrorType:3;rec~drop_glue::<std::io::Error:3;memchr_bytewise:64;sip:48;next_match:40
+/// conftest C_F_MOVED (f(g) with a usage, g) then the empty text: definitions, usages and reverse-index entries are all gone.
+c06_pair!(c06_moved_then_empty, PC, T_C_F_MOVED, fresh_c_f_moved, T_C_EMPTY, fresh_c_empty);
+/// @harness id=c06_moved_then_comment props=C06 tier=thorough unwind=18 mem=10 cap=1500 gates=seed unwindset=find_inner:3;memchr_seq:400;rec~ParseErrorType:3;rec~LexicalErrorType:3;rec~FStringErrorType:3;rec~drop_glue::<std::io::Error:3;memchr_bytewise:64;sip:48;next_match:40
+/// conftest C_F_MOVED then a comment-only text.
+c06_pair!(c06_moved_then_comment, PC, T_C_F_MOVED, fresh_c_f_moved, T_C_COMMENT, fresh_c_comment);
+/// @harness id=c06_test_then_empty props=C06,C04 tier=quick unwind=18 mem=10 cap=1500 gates=seed unwindset=find_inner:3;memchr_seq:400;rec~ParseErrorType:3;rec~LexicalErrorType:3;rec~FStringErrorType:3;rec~drop_glue::<std::io::Error:3;memchr_bytewise:64;sip:48;next_match:40
+/// test module U_TG (two usages) then the empty text: usages and the reverse index are emptied.
+c06_pair!(c06_test_then_empty, PU, T_U_TG, fresh_u_tg, T_C_EMPTY, fresh_c_empty);
+/// @harness id=c06_scoped_then_comment props=C06,C04 tier=thorough unwind=18 mem=10 cap=1500 gates=seed unwindset=find_inner:3;memchr_seq:400;rec~ParseErrorType:3;rec~LexicalErrorType:3;rec~FStringErrorType:3;rec~drop_glue::<std::io::Error:3;memchr_bytewise:64;sip:48;next_match:40
+/// conftest C_SCOPED (f <-> g cycle, scopes) then a comment-only text.
+c06_pair!(c06_scoped_then_comment, PC, T_C_SCOPED, fresh_c_scoped, T_C_COMMENT, fresh_c_comment);
+
+/// @harness id=c06_same_length_edit props=ATTEMPT unwind=18 mem=12 cap=1800 gates=seed unwindset=find_inner:3;memchr_seq:400;memchr_bytewise:140;rec~ParseErrorType:3;rec~LexicalErrorType:3;rec~FStringErrorType:3;rec~drop_glue::<std::io::Error:3;sip:48;next_match:40
 /// a test module longer than 256 bytes is re-analysed with content of the SAME length whose first and last 128
 /// bytes are unchanged (a space after a comma became a newline): positions must be those of a fresh index.
 c06_pair!(c06_same_length_edit, PU, T_L_ONE_LINE, fresh_l_one_line, T_L_TWO_LINES, fresh_l_two_lines);
@@ -245,27 +258,66 @@ macro_rules! c10_open_scan {
     };
 }
 
-/// @harness id=c10_scan_then_open_other props=C10 tier=quick unwind=40 mem=10 cap=1500 gates=seed unwindset=find_inner:3;memchr_seq:400;rec~ParseErrorType:3;rec~LexicalErrorType:3;rec~FStringErrorType:3;rec~drop_glue::<std::io::Error:3
+/// @harness id=c10_scan_then_open_other props=ATTEMPT tier=thorough unwind=18 mem=10 cap=1500 gates=seed unwindset=find_inner:3;memchr_seq:400;rec~ParseErrorType:3;rec~LexicalErrorType:3;rec~FStringErrorType:3;rec~drop_glue::<std::io::Error:3;memchr_bytewise:64;sip:48;next_match:40
 /// the scan visited the conftest first (disk = C_F), then didOpen with a different buffer C_G: the buffer exactly once.
 c10_scan_open!(c10_scan_then_open_other, T_C_G, fresh_c_g);
-/// @harness id=c10_scan_then_open_same props=C10 tier=thorough unwind=40 mem=10 cap=1500 gates=seed unwindset=find_inner:3;memchr_seq:400;rec~ParseErrorType:3;rec~LexicalErrorType:3;rec~FStringErrorType:3;rec~drop_glue::<std::io::Error:3
+/// @harness id=c10_scan_then_open_same props=ATTEMPT tier=thorough unwind=18 mem=10 cap=1500 gates=seed unwindset=find_inner:3;memchr_seq:400;rec~ParseErrorType:3;rec~LexicalErrorType:3;rec~FStringErrorType:3;rec~drop_glue::<std::io::Error:3;memchr_bytewise:64;sip:48;next_match:40
 /// scan (C_F) then didOpen with the same text.
 c10_scan_open!(c10_scan_then_open_same, T_C_F, fresh_c_f);
-/// @harness id=c10_open_other_then_scan props=C10 tier=quick unwind=40 mem=10 cap=2400 gates=seed unwindset=find_inner:3;memchr_seq:400;rec~ParseErrorType:3;rec~LexicalErrorType:3;rec~FStringErrorType:3;rec~drop_glue::<std::io::Error:3
+/// @harness id=c10_open_other_then_scan props=ATTEMPT tier=thorough unwind=18 mem=10 cap=2400 gates=seed unwindset=find_inner:3;memchr_seq:400;rec~ParseErrorType:3;rec~LexicalErrorType:3;rec~FStringErrorType:3;rec~drop_glue::<std::io::Error:3;memchr_bytewise:64;sip:48;next_match:40
 /// didOpen (buffer C_G) first, then the scan worker reaches the file with the disk content C_F: the buffer must win; a further change whose text equals the DISK text (C_F) must restore the single-analysis state.
 c10_open_scan!(c10_open_other_then_scan, T_C_G, fresh_c_g, T_C_F, fresh_c_f);
-/// @harness id=c10_open_same_then_scan props=C10 tier=quick unwind=40 mem=10 cap=2400 gates=seed unwindset=find_inner:3;memchr_seq:400;rec~ParseErrorType:3;rec~LexicalErrorType:3;rec~FStringErrorType:3;rec~drop_glue::<std::io::Error:3
+/// @harness id=c10_open_same_then_scan props=ATTEMPT tier=thorough unwind=18 mem=10 cap=2400 gates=seed unwindset=find_inner:3;memchr_seq:400;rec~ParseErrorType:3;rec~LexicalErrorType:3;rec~FStringErrorType:3;rec~drop_glue::<std::io::Error:3;memchr_bytewise:64;sip:48;next_match:40
 /// didOpen (buffer == disk == C_F), then the scan: still exactly once; a further change (C_G) restores.
 c10_open_scan!(c10_open_same_then_scan, T_C_F, fresh_c_f, T_C_G, fresh_c_g);
 
-/// @harness id=c04_mirror_open_then_scan props=C04,C10 unwind=40 mem=10 cap=1500 gates=seed unwindset=find_inner:3;memchr_seq:400;rec~ParseErrorType:3;rec~LexicalErrorType:3;rec~FStringErrorType:3;rec~drop_glue::<std::io::Error:3
-/// the test module is open (U_TG, seeded) and then reached by the scan with the same text
-/// (analyze_file_fresh U_TG), no edit in between: the reverse index must still mirror `usages` (no usage twice).
+/// @harness id=c10_open_then_scan_empty_disk props=C10 tier=quick unwind=18 mem=10 cap=1500 gates=seed unwindset=find_inner:3;memchr_seq:400;rec~ParseErrorType:3;rec~LexicalErrorType:3;rec~FStringErrorType:3;rec~drop_glue::<std::io::Error:3;memchr_bytewise:64;sip:48;next_match:40
+/// didOpen with buffer C_F_MOVED (seeded: definitions f, g and a usage), then the scan worker reaches the file whose
+/// DISK content is empty (real analyze_file_fresh): the index must still describe the buffer, exactly once; a further
+/// change notification (comment-only text) must leave exactly the single-analysis state.
+hist_arm!(c10_open_then_scan_empty_disk, {
+    let db = FixtureDatabase::new();
+    let opened = fresh_c_f_moved(PC);
+    seed_file_state(&db, PC, T_C_F_MOVED, &opened);
+    db.analyze_file_fresh(PathBuf::from(PC), T_C_EMPTY);
+    if crate::kf::C10_SCAN_AFTER_OPEN_OVERWRITES {
+        check!("KF:c10.open_then_scan.buffer_exactly_once", file_state_is(&db, PC, &opened, true));
+    } else {
+        check!("c10.open_then_scan.buffer_exactly_once", file_state_is(&db, PC, &opened, true));
+    }
+    db.analyze_file(PathBuf::from(PC), T_C_COMMENT);
+    let want2 = fresh_c_comment(PC);
+    check!("c10.open_then_scan.next_change_restores", file_state_is(&db, PC, &want2, true));
+    reach!("c10.open_then_scan.end");
+    std::mem::forget(opened); std::mem::forget(want2); std::mem::forget(db);
+});
+/// @harness id=c10_scan_then_open_empty_buffer props=C10 tier=quick unwind=18 mem=10 cap=1500 gates=seed unwindset=find_inner:3;memchr_seq:400;rec~ParseErrorType:3;rec~LexicalErrorType:3;rec~FStringErrorType:3;rec~drop_glue::<std::io::Error:3;memchr_bytewise:64;sip:48;next_match:40
+/// the scan visited the conftest first (disk = C_F_MOVED, seeded), then didOpen with an EMPTY buffer (real
+/// analyze_file): the index must describe the buffer — nothing of the disk version survives.
+hist_arm!(c10_scan_then_open_empty_buffer, {
+    let db = FixtureDatabase::new();
+    let disk = fresh_c_f_moved(PC);
+    seed_file_state(&db, PC, T_C_F_MOVED, &disk);
+    std::mem::forget(disk);
+    db.analyze_file(PathBuf::from(PC), T_C_EMPTY);
+    let want = fresh_c_empty(PC);
+    check!("c10.scan_then_open.buffer_exactly_once", file_state_is(&db, PC, &want, true));
+    reach!("c10.scan_then_open.end");
+    std::mem::forget(want); std::mem::forget(db);
+});
+
+/// @harness id=c04_mirror_open_then_scan props=C04,C10 unwind=18 mem=10 cap=1500 gates=seed unwindset=find_inner:3;memchr_seq:400;rec~ParseErrorType:3;rec~LexicalErrorType:3;rec~FStringErrorType:3;rec~drop_glue::<std::io::Error:3;memchr_bytewise:64;sip:48;next_match:40
+/// the test module is open (U_TG, seeded: two usages) and then reached by the scan (analyze_file_fresh, empty disk
+/// content): the reverse index must still mirror `usages` exactly (no stale or duplicated entry).
 hist_arm!(c04_mirror_open_then_scan, {
     let db = FixtureDatabase::new();
     let want = fresh_u_tg(PU);
     seed_file_state(&db, PU, T_U_TG, &want);
-    db.analyze_file_fresh(PathBuf::from(PU), T_U_TG);
+    std::mem::forget(want);
+    // the scan worker then reaches the file; its disk content is empty (a non-trivial text would put a real AST under
+    // the symbolic executor, which is out of reach — DESIGN §9.2)
+    db.analyze_file_fresh(PathBuf::from(PU), T_C_EMPTY);
+    let want = fresh_c_empty(PU);
     let pb = PathBuf::from(PU);
     let n_us = db.usages.get(&pb).map(|u| u.value().len()).unwrap_or(0);
     let mut n_rev = 0usize;
@@ -313,16 +365,16 @@ macro_rules! c07_warm {
     };
 }
 
-/// @harness id=c07_warm_then_remove props=C07 tier=quick unwind=40 mem=12 cap=2400 gates=seed unwindset=find_inner:3;memchr_seq:400;rec~ParseErrorType:3;rec~LexicalErrorType:3;rec~FStringErrorType:3;rec~drop_glue::<std::io::Error:3
+/// @harness id=c07_warm_then_remove props=C07 tier=quick unwind=18 mem=12 cap=2400 gates=seed unwindset=find_inner:3;memchr_seq:400;rec~ParseErrorType:3;rec~LexicalErrorType:3;rec~FStringErrorType:3;rec~drop_glue::<std::io::Error:3;memchr_bytewise:64;sip:48;next_match:40
 /// warm per-file view, then the edit only REMOVES definitions (C_EMPTY): warm == cold.
 c07_warm!(c07_warm_then_remove, T_C_EMPTY, true);
-/// @harness id=c07_warm_then_move props=C07 tier=quick unwind=40 mem=12 cap=2400 gates=seed unwindset=find_inner:3;memchr_seq:400;rec~ParseErrorType:3;rec~LexicalErrorType:3;rec~FStringErrorType:3;rec~drop_glue::<std::io::Error:3
+/// @harness id=c07_warm_then_move props=ATTEMPT tier=thorough unwind=18 mem=12 cap=2400 gates=seed unwindset=find_inner:3;memchr_seq:400;rec~ParseErrorType:3;rec~LexicalErrorType:3;rec~FStringErrorType:3;rec~drop_glue::<std::io::Error:3;memchr_bytewise:64;sip:48;next_match:40
 /// warm per-file view, then the edit keeps the name set and moves f to another line (C_F_LINE): warm == cold.
 c07_warm!(c07_warm_then_move, T_C_F_LINE, false);
-/// @harness id=c07_warm_then_rename props=C07 tier=thorough unwind=40 mem=12 cap=2400 gates=seed unwindset=find_inner:3;memchr_seq:400;rec~ParseErrorType:3;rec~LexicalErrorType:3;rec~FStringErrorType:3;rec~drop_glue::<std::io::Error:3
+/// @harness id=c07_warm_then_rename props=ATTEMPT tier=thorough unwind=18 mem=12 cap=2400 gates=seed unwindset=find_inner:3;memchr_seq:400;rec~ParseErrorType:3;rec~LexicalErrorType:3;rec~FStringErrorType:3;rec~drop_glue::<std::io::Error:3;memchr_bytewise:64;sip:48;next_match:40
 /// warm per-file view, then the edit renames f to g (C_G): warm == cold.
 c07_warm!(c07_warm_then_rename, T_C_G, false);
-/// @harness id=c07_warm_then_add props=C07 tier=thorough unwind=40 mem=12 cap=2400 gates=seed unwindset=find_inner:3;memchr_seq:400;rec~ParseErrorType:3;rec~LexicalErrorType:3;rec~FStringErrorType:3;rec~drop_glue::<std::io::Error:3
+/// @harness id=c07_warm_then_add props=ATTEMPT tier=thorough unwind=18 mem=12 cap=2400 gates=seed unwindset=find_inner:3;memchr_seq:400;rec~ParseErrorType:3;rec~LexicalErrorType:3;rec~FStringErrorType:3;rec~drop_glue::<std::io::Error:3;memchr_bytewise:64;sip:48;next_match:40
 /// warm per-file view, then the edit moves f and adds g (C_F_MOVED): warm == cold.
 c07_warm!(c07_warm_then_add, T_C_F_MOVED, false);
 
@@ -351,9 +403,9 @@ macro_rules! c07_close {
     };
 }
 
-/// @harness id=c07_close_conftest props=C07 tier=quick unwind=40 mem=12 cap=2400 gates=seed unwindset=find_inner:3;memchr_seq:400;rec~ParseErrorType:3;rec~LexicalErrorType:3;rec~FStringErrorType:3;rec~drop_glue::<std::io::Error:3
+/// @harness id=c07_close_conftest props=C07 tier=quick unwind=18 mem=12 cap=2400 gates=seed unwindset=find_inner:3;memchr_seq:400;rec~ParseErrorType:3;rec~LexicalErrorType:3;rec~FStringErrorType:3;rec~drop_glue::<std::io::Error:3;memchr_bytewise:64;sip:48;next_match:40
 /// open-then-close of the unmodified conftest.
 c07_close!(c07_close_conftest, PC);
-/// @harness id=c07_close_test_module props=C07 tier=thorough unwind=40 mem=12 cap=2400 gates=seed unwindset=find_inner:3;memchr_seq:400;rec~ParseErrorType:3;rec~LexicalErrorType:3;rec~FStringErrorType:3;rec~drop_glue::<std::io::Error:3
+/// @harness id=c07_close_test_module props=C07 tier=thorough unwind=18 mem=12 cap=2400 gates=seed unwindset=find_inner:3;memchr_seq:400;rec~ParseErrorType:3;rec~LexicalErrorType:3;rec~FStringErrorType:3;rec~drop_glue::<std::io::Error:3;memchr_bytewise:64;sip:48;next_match:40
 /// open-then-close of the unmodified test module.
 c07_close!(c07_close_test_module, PU);
